@@ -8,7 +8,7 @@ func init() {
 func checkC06(c *Check) {
 	c.rule = "MC_Scope: 16 function templates (parameter assigned, local + global write, loop variables, loop variable named like the parameter / like a local, recursion reading its parameter after the recursive call, nested calls with the same parameter name, return from two nested loops, return from a switch in a while, no return, wrong argument count, unknown function, user function named like a built-in, recursion out of a loop, assignment to a non-local name, function defined twice) x parameter/local/loop names drawn from {x, y, p} where x and y are globals of the caller x 6 call places (top level, inside foreach x, inside foreach i,y, inside while, inside if, inside another function with parameter x) x definition before/after use; each run twice; result, t() calls, all names read back and every variable compared; open scopes must be 0 after every run; non-trivial = expectation is a value or ERR"
 	c.assumptions = []string{"assignment writes the innermost scope that already binds the name, else the globals (EFSemantics)", "a callee assigning a name bound by an enclosing scope of its caller is not generated"}
-	tc := &traceCollector{every: 3}
+	tc := &traceCollector{every: 3, max: 3000000}
 	runRows(c, "MC_Scope", stdCfg(c.Tier, "Specified", "Errors"), func(row *Row) {
 		replayProgRow(c, row, progOpts{collector: tc})
 	})
